@@ -15,6 +15,10 @@ impl super::Timestamp {
 /// Stand-in for `core::panic::Location::caller()` (see c15_keyset.rs, assumption A-location): a reference to a
 /// dummy static that is large and aligned enough for a `Location`; never read.
 static VERIF_C15_DUMMY_LOCATION: [u64; 8] = [0; 8];
-pub(crate) fn verif_c15_stub_location_caller() -> &'static core::panic::Location<'static> {
-    unsafe { &*(&VERIF_C15_DUMMY_LOCATION as *const [u64; 8] as *const core::panic::Location<'static>) }
+/// same generics as `impl<'a> Location<'a> { fn caller() }` (Kani requires the stub to match them)
+pub(crate) struct VerifC15Location<'a>(core::marker::PhantomData<&'a ()>);
+impl<'a> VerifC15Location<'a> {
+    pub(crate) fn caller() -> &'static core::panic::Location<'static> {
+        unsafe { &*(&VERIF_C15_DUMMY_LOCATION as *const [u64; 8] as *const core::panic::Location<'static>) }
+    }
 }
